@@ -492,9 +492,81 @@ def normaliser_fixed_point(ctx: Ctx, rep: Report, rid: str = "R06.5") -> None:
     rep.floor(4, "text initialisers")
 
 
+def container_render_order(ctx: Ctx, rep: Report, rid: str = "R06.6") -> None:
+    """A container renders its members in the order it stores them: the text is then parsed back into the same order
+    (a renderer that sorts or reverses gives a stable text but data whose item order differs after the round trip)."""
+    from .common import order_of, single_env
+
+    rep.rule(rid)
+    n = 0
+    for q in ("AddrGroup.line.getter", "AceGroup.line.getter", "Acl.line.getter"):
+        f = ctx.prog.find_func(q)
+        if f is None:
+            continue
+        n += 1
+        rep.instance()
+        senv = single_env(f.node)
+        # the sequences of members the text is made from
+        srcs = []
+        for x in own_nodes(f.node):
+            its = []
+            if isinstance(x, (ast.ListComp, ast.GeneratorExp)):
+                its = [g.iter for g in x.generators]
+            elif isinstance(x, ast.For):
+                its = [x.iter]
+            for it in its:
+                e = it
+                for _ in range(4):
+                    if isinstance(e, ast.Name) and e.id in senv:
+                        e = senv[e.id]
+                    else:
+                        break
+                if any(isinstance(y, ast.Attribute) and src(y) in ("self._items", "self.items") for y in ast.walk(e)):
+                    srcs.append((it, e))
+        bad = None
+        for it, e in srcs:
+            state, why = order_of(ctx, f, it)
+            if not state.startswith("ordered:self"):
+                bad = (it, e, state, why)
+        # a local that holds the members may be re-bound to a sorted copy under a condition
+        for x in own_nodes(f.node):
+            if isinstance(x, (ast.Assign, ast.AnnAssign)) and getattr(x, "value", None) is not None and isinstance(x.value, ast.Call) and src(x.value.func) in ("sorted", "reversed") and x.value.args:
+                a0 = x.value.args[0]
+                e = senv.get(a0.id, a0) if isinstance(a0, ast.Name) else a0
+                tgt = x.targets[0] if isinstance(x, ast.Assign) else x.target
+                if isinstance(tgt, ast.Name) and any(isinstance(it_, ast.Name) and it_.id == tgt.id for it_, _ in [(i, 0) for i, _e in srcs] + [(g.iter, 0) for c in own_nodes(f.node) if isinstance(c, (ast.ListComp, ast.GeneratorExp)) for g in c.generators]):
+                    bad = bad or (x.value, e, "reordered", "sorted()/reversed() copy of the members")
+        if not srcs and bad is None:
+            rep.violation(q, "members", "the renderer does not iterate the stored items", where(f))
+        elif bad is not None:
+            it, e, state, why = bad
+            rep.violation(q, snippet(it), f"the members are rendered in another order than they are stored ({state}: {why}): the rendered text re-parses into data whose items are ordered differently", where(f, it), inp="an address group whose members are all numbered and not in ascending order")
+        else:
+            rep.ok(f"{q}", f"members rendered in stored order ({', '.join(snippet(i, 30) for i, _ in srcs)})", where=where(f))
+    rep.floor(3, "container renderers")
+
+
 def run(ctx: Ctx, rep: Report, tier: str) -> None:
     from . import c01
     from .c08 import validated_is_returned
+
+    container_render_order(ctx, rep)
+    # R06.7 premises: what the renderer writes is in the reader's vocabulary (port names), a stored sequence number
+    # is rendered (C10 R10.6)
+    from .c09 import splitter_vocabulary
+    from .c10 import rendered_numbers
+
+    sub2 = Report("C06")
+    splitter_vocabulary(ctx, sub2, "R09.5")
+    rendered_numbers(ctx, sub2, "R10.6")
+    rep.absorb(sub2, "R06.7")
+    # R06.8 premise: the port object's four views (operator, operands, port list, range string) are computed from one
+    # another consistently (C08): data() exports all of them and must be reproduced by re-parsing the rendered line
+    from . import c08
+
+    sub3 = Report("C06")
+    c08.run(ctx, sub3, tier)
+    rep.absorb(sub3, "R06.8")
 
     sub = Report("C06")
     orders = c01.r01_1(ctx, sub)
